@@ -559,6 +559,40 @@ def run_two_prefixes(ctx, i):
       shutil.rmtree(base, ignore_errors=True)
 
 
+def run_sign_prefix(ctx, i):
+  """A prefix whose last character could be read as part of a number ('model.ckpt-', the TensorFlow spelling; 'ckpt.'; 'run+'):
+  the step is what follows the prefix, so steps order numerically, 'latest' is the largest and retention keeps the newest."""
+  from vf import crash
+  backend = ['legacy', 'orbax'][i % 2]
+  io = ['TF', 'DEFAULT'][(i // 2) % 2]
+  pa = ['model.ckpt-', 'ckpt.', 'run+', 'v1.5-', 'plain_'][(i // 4) % 5]
+  order = [[('a', 5, 1), ('a', 10, 1), ('a', 11, 1)], [('a', 1, 2), ('a', 2, 2), ('a', 10, 2), ('a', 30, 2)],
+           [('a', 8, 1), ('a', 9, 1), ('a', 10, 1), ('a', 100, 1)]][(i // 20) % 3]
+  desc = dict(backend=backend, io=io, prefix=pa, order=order)
+  sfx = '' if pa == 'plain_' else ':prefix_ends_in_sign_char'
+  with ctx.case('sign_prefix', i, desc, nontrivial=pa != 'plain_'):
+    base = tempfile.mkdtemp(prefix='vf-c11s-')
+    try:
+      st, trace, err = crash.fork_run(lambda: child_two_prefixes(base, backend, io, pa, 'zz_other_', order))
+      if trace is None:
+        ctx.check(False, 'prefixes.child_failed' + sfx, dict(case=desc, error=err))
+        return
+      present = set()
+      for row in trace:
+        which, step, keep = row['op']
+        oc, new = model_save(present, step, keep, None, False, backend)
+        ctx.op('save_checkpoint(prefix ending in -, + or .)')
+        det = lambda: dict(case=desc, row=row, model=sorted(present))  # noqa: E731
+        ctx.check((row['outcome'] == 'ok') == (oc == 'ok'), 'prefixes.outcome' + sfx, det)
+        if row['outcome'] == 'ok':
+          present = new
+        got = {float(n[len(pa):]) for n in row['a']['listing']}
+        ctx.check(got == {float(x) for x in present}, 'prefixes.retention' + sfx, det)
+        ctx.check(row['a']['latest'] == (None if not present else fmt(pa, max(present))), 'prefixes.latest' + sfx, det)
+    finally:
+      shutil.rmtree(base, ignore_errors=True)
+
+
 def run(ctx):
   # everything the children need is imported here, once, so that forked children neither pay the import cost nor import
   # concurrently from two threads (the JAX backend stays untouched in this process)
@@ -586,3 +620,5 @@ def run(ctx):
     run_async(ctx, hi, hist)
   for i in ctx.indices(16 if ctx.tier == 'quick' else 48, 'two_prefixes'):
     run_two_prefixes(ctx, i)
+  for i in ctx.indices(20 if ctx.tier == 'quick' else 60, 'sign_prefix'):
+    run_sign_prefix(ctx, i)
